@@ -1,8 +1,9 @@
 (* C18 — extraction of the Hamiltonian / anti-commutator / dissipator matrices from a generator and rebuilding:
    for an orthonormal Hermitian basis with B_0 = I/sd, sd*sd = d, and L = lcb_hjk (sum h_a B_a) (sum j_a B_a) K :
-     calc_h_mat L = H minus its identity component,  calc_k_mat L = K,  the CORRECTED calc_j_mat L = J,
-     the calc_j_mat AS CODED drops the identity component of J and halves the B_1 component,
-     rebuild (corrected) = identity,  h + j + k parts = whole.
+     calc_h_mat L = H minus its identity component,  calc_k_mat L = K,  calc_j_mat L = J  (calc_j_mat as repaired by
+     fixes/c18-calc-j-mat-identity-component.diff),
+     calc_j_mat_prefix (AS CODED BEFORE THAT FIX) drops the identity component of J and halves the B_1 component,
+     rebuild = identity,  h + j + k parts = whole.
    Generic in the ordered field; axiom-free. *)
 From Coq Require Import Field Ring Setoid Arith Lia Bool List.
 From QV.Core Require Import OF Sums Mat Cplx.
@@ -179,24 +180,25 @@ Proof. unfold L, lcb_hjk. now rewrite !tr2_madd_l. Qed.
 Lemma h_coef_L a : (a < n)%nat -> h_coef d B L a = zof (csub F (hv a) (cmul F (hv 0%nat) (dF a))).
 Proof. intros Ha. unfold h_coef. rewrite tr2_L, hm, jm, km by exact Ha.
   fld. Qed.
-Lemma j_coef_fix_L a : (a < n)%nat -> j_coef_fix d B L a = zof (jv a).
-Proof. intros Ha. unfold j_coef_fix. rewrite tr2_L, hp, jp, kp by exact Ha. unfold jden, dF.
+Lemma j_coef_L a : (a < n)%nat -> j_coef d B L a = zof (jv a).
+Proof. intros Ha. unfold j_coef. rewrite tr2_L, hp, jp, kp by exact Ha. unfold jden, dF.
   destruct (Nat.eqb_spec a 0) as [->|Hne]; fld. Qed.
-Lemma j_coef_code_L a : (a < m)%nat ->
-  j_coef_code d B L a = zof (cmul F (jv (S a)) (if Nat.eqb a 0 then half F else c1 F)).
-Proof. intros Ha. unfold j_coef_code. rewrite tr2_L, hp, jp, kp by now apply S_lt. unfold jden, dF, half. cbn [Nat.eqb].
+Lemma j_coef_prefix_L a : (a < m)%nat ->
+  j_coef_prefix d B L a = zof (cmul F (jv (S a)) (if Nat.eqb a 0 then half F else c1 F)).
+Proof. intros Ha. unfold j_coef_prefix. rewrite tr2_L, hp, jp, kp by now apply S_lt. unfold jden, dF, half. cbn [Nat.eqb].
   destruct (Nat.eqb a 0); fld. Qed.
 
 Theorem extract_h : meq d d (calc_h_mat d B L) (op_of_vec d B (fun a => csub F (hv a) (cmul F (hv 0%nat) (dF a)))).
 Proof. intros i j Hi Hj. unfold calc_h_mat, op_of_vec. apply (@sumn_ext Cx); intros a Ha. now rewrite h_coef_L. Qed.
-Theorem extract_j_fix : meq d d (calc_j_mat_fix d B L) (op_of_vec d B jv).
-Proof. intros i j Hi Hj. unfold calc_j_mat_fix, op_of_vec. apply (@sumn_ext Cx); intros a Ha. now rewrite j_coef_fix_L. Qed.
+Theorem extract_j : meq d d (calc_j_mat d B L) (op_of_vec d B jv).
+Proof. intros i j Hi Hj. unfold calc_j_mat, op_of_vec. apply (@sumn_ext Cx); intros a Ha. now rewrite j_coef_L. Qed.
 Theorem extract_k : meq m m (calc_k_mat d B L) K.
 Proof. intros a b Ha Hb. unfold calc_k_mat. rewrite tr2_L, hk, jk, kk by assumption. ring. Qed.
-(* what the routine AS CODED returns: the identity component is gone, the B_1 component halved *)
-Theorem extract_j_code i j :
-  calc_j_mat_code d B L i j
+(* what the routine AS CODED BEFORE FIX c18-calc-j-mat-identity-component returns: the identity component is gone, the B_1
+   component halved *)
+Theorem extract_j_prefix i j :
+  calc_j_mat_prefix d B L i j
   = sumn m (fun a => zof (cmul F (jv (S a)) (if Nat.eqb a 0 then half F else c1 F)) *c B (S a) i j).
-Proof. unfold calc_j_mat_code. apply (@sumn_ext Cx); intros a Ha. now rewrite j_coef_code_L. Qed.
+Proof. unfold calc_j_mat_prefix. apply (@sumn_ext Cx); intros a Ha. now rewrite j_coef_prefix_L. Qed.
 End Gen.
 End Extract.
